@@ -42,6 +42,14 @@ def run(tier):
     for i, s in enumerate(scen):
         s["mode"] = i % 10
         s["ignore"] = ["none", "none", "client", "none", "server", "none", "none"][i % 7]      # Stream::ignore_client_data / ignore_server_data
+        # in every fourth scenario a third party's segments (never tracked: no SYN, no payload) let time pass at the end: 19 and 21
+        # ticks after the last packet (keep-alive 10): whatever is still tracked is idle for more than one period at the first and
+        # for more than two at the second, and no sweep is due in between
+        if i % 4 == 1 and s["pkts"]:
+            t = s["pkts"][-1]["ts"]
+            for dt in (19, 21):
+                s["pkts"].append({"from": "c", "syn": False, "ack": True, "fin": False, "rst": False, "off": 0, "len": 0, "ackoff": 0,
+                                  "inc": False, "x": 0, "conn": "c3", "ts": t + dt})
     p = vlib.Pipeline(PROP, "tcp_follower", "tcp/FollowerTrace")
     chunk = 20000
     for i in range(0, len(scen), chunk):
